@@ -5,6 +5,7 @@ package c14
 
 import (
 	"fmt"
+	"os"
 	"sort"
 	"strings"
 	"sync"
@@ -21,6 +22,18 @@ import (
 	"verifharness/bed"
 	"verifharness/vkit"
 )
+
+// racePass: the driver's auxiliary -race pass of the thorough tier (non-deciding for race reports, deciding for the
+// monitors). It runs the quick-sized workload (the race detector slows the pick loops several times) and leaves the
+// evidence file of the plain thorough pass in place.
+var racePass = os.Getenv("VERIF_RACE_PASS") != ""
+
+func tierN(r *vkit.R, quick, thorough int) int {
+	if racePass {
+		return quick
+	}
+	return r.N(quick, thorough)
+}
 
 // ---- test bed: a real ClusterInfo whose endpoint health is scripted ----
 
@@ -301,10 +314,6 @@ func judge(r *vkit.R, st *state, p int, n, pickers int, fresh bool, lg *pickLog,
 	ready := st.readyList(p)
 	k := len(ready)
 	subset := len(st.Policies[p].Subset) > 0
-	kind := "nosubset"
-	if subset {
-		kind = "subset"
-	}
 	w := batchWitness{State: st.clone(), Policy: p, Ready: ready, N: n, Pickers: pickers, Fresh: fresh, Counts: lg.counts, Errors: lg.errs, Case: caseID}
 	if lg.panics > 0 {
 		w.Detail = lg.panicMsg
@@ -523,9 +532,9 @@ var pickerChoices = []int{1, 1, 1, 2, 3, 4, 8, 16, 32}
 // histories: random configurations; stable periods separated by one mutation; in each period every policy gets one to
 // three barrier-separated batches; policies whose ready sets differ (hence different cursors) pick concurrently.
 func histories(r *vkit.R) {
-	n := r.N(90, 4000)
-	steps := r.N(5, 8)
-	big := r.N(1500, 6000)
+	n := tierN(r, 90, 450)
+	steps := tierN(r, 5, 6)
+	big := tierN(r, 1500, 3000)
 	r.Parallel(n, 6, func(ci int, g *vkit.Rand) {
 		st := genState(g, 6)
 		b, err := newBed(st)
@@ -651,7 +660,7 @@ func linModel(k int) porcupine.Model {
 // linHistories: short concurrent histories on one subset policy, checked for linearizability against the sequential
 // round-robin (so a duplicated or skipped cursor value is caught even when the totals happen to look even).
 func linHistories(r *vkit.R) {
-	n := r.N(200, 6000)
+	n := tierN(r, 200, 4000)
 	r.Parallel(n, 8, func(ci int, g *vkit.Rand) {
 		st := &state{Disabled: map[string]bool{}, Healthy: map[string]bool{}}
 		ns := g.Range(2, 6)
@@ -729,10 +738,15 @@ func linHistories(r *vkit.R) {
 	})
 }
 
+var (
+	devMu  sync.Mutex
+	devMax = map[int]float64{}
+)
+
 // largeNoSubset: policies without subset, fresh picker per pick, N large enough that the k! bound separates a
 // round-robin (deviation < k!) from a random (~sqrt(N)) or stuck (N/k) picker.
 func largeNoSubset(r *vkit.R) {
-	n := r.N(10, 160)
+	n := tierN(r, 10, 60)
 	r.Parallel(n, 4, func(ci int, g *vkit.Rand) {
 		st := &state{Disabled: map[string]bool{}, Healthy: map[string]bool{}}
 		ns := g.Range(2, 5)
@@ -763,7 +777,7 @@ func largeNoSubset(r *vkit.R) {
 		batches := g.Range(1, 2)
 		for bi := 0; bi < batches; bi++ {
 			// N >= 2500 * k!: a fair random picker deviates by ~sqrt(N(k-1))/k which is > k! for these N when k<=4
-			N := r.N(40000, 250000) + g.Intn(1000)
+			N := tierN(r, 40000, 250000) + g.Intn(1000)
 			P := g.PickInt([]int{1, 2, 4, 8, 16, 32})
 			lg := runBatch(b, "r0", N, P, true, nil, nil)
 			r.Eval(1)
@@ -781,6 +795,11 @@ func largeNoSubset(r *vkit.R) {
 					maxDev = d
 				}
 			}
+			devMu.Lock()
+			if maxDev > devMax[k] {
+				devMax[k] = maxDev
+			}
+			devMu.Unlock()
 			r.Sample(map[string]interface{}{"kind": "large-nosubset", "ready": k, "picks": N, "pickers": P, "counts": lg.counts, "max_deviation": maxDev, "allowed": fact(k)})
 			judge(r, st, 0, N, P, true, lg, fmt.Sprintf("large case=%d batch=%d", ci, bi))
 		}
@@ -829,6 +848,9 @@ func TestCheck(t *testing.T) {
 		r.Assume("a policy's picks are judged only while no other policy with the same ready set is picking (the implementation keeps one cursor per ready list, as the property's anchors describe)")
 		r.Assume("windows of consecutive picks are not extended across a spec or readiness change of the cluster (a server-list change restarts the cursors)")
 
+		if racePass {
+			os.Setenv("VERIF_NO_EVIDENCE", "1")
+		}
 		seed := uint64(r.Seed)
 		vkit.Sched.Enable(seed, 0.05, 0.02, 0.002)
 		histories(r)
@@ -836,14 +858,17 @@ func TestCheck(t *testing.T) {
 		vkit.Sched.Enable(seed+1, 0.01, 0.002, 0.00005)
 		largeNoSubset(r)
 		vkit.Sched.Disable()
+		for k, d := range devMax {
+			r.Set(fmt.Sprintf("large_nosubset_max_abs_deviation_k%d_allowed_%d", k, fact(k)), d)
+		}
 		sharedCursor(r)
 		r.ReportSched()
 
-		r.Require(r.Counter("batches_subset") >= int64(r.N(300, 10000)), "too few subset batches evaluated")
-		r.Require(r.Counter("batches_concurrent") >= int64(r.N(150, 5000)), "too few concurrent batches evaluated")
-		r.Require(r.Counter("lin_histories") >= int64(r.N(120, 3000)), "too few linearizability histories")
+		r.Require(r.Counter("batches_subset") >= int64(tierN(r, 300, 1800)), "too few subset batches evaluated")
+		r.Require(r.Counter("batches_concurrent") >= int64(tierN(r, 150, 900)), "too few concurrent batches evaluated")
+		r.Require(r.Counter("lin_histories") >= int64(tierN(r, 120, 2400)), "too few linearizability histories")
 		r.Require(r.Counter("lin_ops_overlapping_another") > 0, "no overlapping picks were observed in the linearizability histories")
-		r.Require(r.Counter("large_nosubset_batches") >= int64(r.N(10, 160)), "too few large batches on policies without subset")
-		r.Require(r.Counter("batches_k2")+r.Counter("batches_k3")+r.Counter("batches_k4")+r.Counter("batches_k5")+r.Counter("batches_k6") >= int64(r.N(200, 8000)), "too few batches with k>=2 ready endpoints")
+		r.Require(r.Counter("large_nosubset_batches") >= int64(tierN(r, 10, 60)), "too few large batches on policies without subset")
+		r.Require(r.Counter("batches_k2")+r.Counter("batches_k3")+r.Counter("batches_k4")+r.Counter("batches_k5")+r.Counter("batches_k6") >= int64(tierN(r, 200, 1200)), "too few batches with k>=2 ready endpoints")
 	})
 }
